@@ -1,4 +1,4 @@
-import Pymeeus.Refine.SunEvents
+import Pymeeus.Refine.SeasonModel
 import Pymeeus.Spec.SunEvents
 /-
 C14 — Seasons, equation of time and sunrise/sunset agree with the solar position.
@@ -75,15 +75,7 @@ theorem season_bad_target (mk : ℝ → PyRes ℝ) (sunLon : ℝ → ℝ) (fuel 
     from year 1000, evaluated at Y = year/1000 resp. (year − 2000)/1000; the season index picks the row. -/
 theorem season_polynomial (year : Int) (k : Fin 4) (hy : -1000 ≤ year ∧ year ≤ 3000) :
     season_jde0 year (k : Int) = .ok (Spec.SunEvents.jde0 year k) := by
-  unfold season_jde0 Spec.SunEvents.jde0 Spec.SunEvents.poly4
-  by_cases h1 : year < 1000
-  · have h1' : year ≥ -1000 ∧ year < 1000 := ⟨hy.1, h1⟩
-    simp only [h1', and_self, if_true]
-    fin_cases k <;> simp [Spec.SunEvents.table27A, ofInt] <;> norm_num <;> ring
-  · have h1' : ¬ (year ≥ -1000 ∧ year < 1000) := by omega
-    have h2 : year ≥ 1000 ∧ year ≤ 3000 := by omega
-    simp only [h2, and_self, if_true, if_false, h1]
-    fin_cases k <;> simp [Spec.SunEvents.table27B, ofInt] <;> norm_num <;> ring
+  exact season_jde0_eq_spec year k hy
 
 /-- Loop post-condition (partial correctness, ANY solar-longitude function, ANY Epoch constructor):
     if `get_equinox_solstice` returns an instant `e`, there is an instant `eLast` — the last one at
@@ -136,25 +128,8 @@ theorem season_post_ideal (sunLon : ℝ → ℝ) (fuel : Nat) (year : Int) (targ
   simp only [Except.ok.injEq] at h1 h2
   have he : e = eLast := by rw [← h2, ← h1]; ring
   subst he
-  have hc : |58 * Real.sin (season_arg k (sunLon e) * (Real.pi / 180))| ≤ 0.0000025 := by
-    have : season_corr k (sunLon e) = 58 * Real.sin (season_arg k (sunLon e) * (Real.pi / 180)) := by
-      unfold season_corr psin pradians; norm_num
-    rw [← this]; exact h3
-  refine ⟨k, hk, hc, ?_⟩
-  have hs : |Real.sin (season_arg k (sunLon e) * (Real.pi / 180))| ≤ 0.0000025 / 58 := by
-    rw [abs_mul] at hc
-    rw [le_div_iff₀ (by norm_num)]
-    have : |(58 : ℝ)| = 58 := abs_of_pos (by norm_num)
-    rw [this] at hc; linarith
-  obtain ⟨m, hm⟩ := near_int_mul_pi_of_abs_sin_le hs
-  obtain ⟨n, hn⟩ := season_arg_congr k (sunLon e)
-  refine ⟨m + 2 * n, ?_⟩
-  have hpi : 0 < Real.pi := Real.pi_pos
-  have key : ((k : ℝ) * 90 - sunLon e) - 180 * ((m + 2 * n : ℤ) : ℝ)
-      = (season_arg k (sunLon e) * (Real.pi / 180) - m * Real.pi) * (180 / Real.pi) := by
-    rw [hn]; push_cast; field_simp; ring
-  rw [key, abs_mul, abs_of_pos (by positivity : (0 : ℝ) < 180 / Real.pi)]
-  exact mul_le_mul_of_nonneg_right hm (by positivity)
+  obtain ⟨hc, hn⟩ := season_angle_of_corr k (sunLon e) h3
+  exact ⟨k, hk, hc, hn⟩
 
 /-- The same in plain degrees: at the returned instant the solar longitude is within 2.5·10⁻⁶ degree
     of `k·90° + n·180°` for some integer `n` (the property's tolerance is 10⁻⁵ degree; that `n` is
@@ -164,6 +139,54 @@ theorem season_post_degrees (sunLon : ℝ → ℝ) (fuel : Nat) (year : Int) (ta
     ∃ k : Int, season_index target = .ok k ∧ ∃ n : ℤ, |((k : ℝ) * 90 - sunLon e) - 180 * n| ≤ 0.0000025 := by
   obtain ⟨k, hk, _, n, hn⟩ := season_post_ideal sunLon fuel year target e h
   exact ⟨k, hk, n, le_trans hn season_angle_bound⟩
+
+/-- The loop post-condition for the model's OWN constructor `mkEpoch` — `Epoch(jde)` as coded: store,
+    `get_full_date()`, `_compute_jde()` — with no hypothesis on it: over ℝ that constructor is the
+    identity on `jde ≥ 0` (`mkEpoch_exact`, the real-number form of C02's `set_jde_exact`), Meeus'
+    approximate instants are ≥ 1 350 000 and a pass moves the instant by at most 58 days, so for up to
+    20 000 passes (the implementation makes 3–4) every instant visited is one the constructor keeps.
+    Conclusion as in `season_post_ideal` / `season_post_degrees`: the returned instant `e` is the last
+    one the solar longitude was evaluated at and that longitude is within 2.5·10⁻⁶ degree of
+    `k·90°` or of its antipode, for ANY solar-longitude function. -/
+theorem season_post_model (sunLon : ℝ → ℝ) (fuel : Nat) (hf : fuel ≤ 20000) (year : Int) (target : String)
+    (e : ℝ) (h : get_equinox_solstice mkEpoch sunLon fuel year target = .ok (some e)) :
+    ∃ k : Int, season_index target = .ok k ∧
+      |58 * Real.sin (season_arg k (sunLon e) * (Real.pi / 180))| ≤ 0.0000025 ∧
+      ∃ n : ℤ, |((k : ℝ) * 90 - sunLon e) - 180 * n| ≤ 0.0000025 := by
+  unfold get_equinox_solstice at h
+  cases hk : season_index target with
+  | error err => rw [hk] at h; simp at h
+  | ok k =>
+    rw [hk] at h; simp only at h
+    cases hj : season_jde0 year k with
+    | error err => rw [hj] at h; simp at h
+    | ok j =>
+      rw [hj] at h; simp only at h
+      have hjge := season_jde0_ge (season_index_range hk) hj
+      rw [Pymeeus.Refine.EpochR.mkEpoch_exact j (by linarith)] at h
+      simp only at h
+      cases hl : loopFuel (season_step mkEpoch sunLon k) fuel j with
+      | none => rw [hl] at h; simp at h
+      | some r =>
+        rw [hl] at h
+        cases r with
+        | error err => simp at h
+        | ok e1 =>
+          simp only [Except.ok.injEq, Option.some.injEq] at h
+          subst h
+          have hfr : (fuel : ℝ) ≤ 20000 := by exact_mod_cast hf
+          obtain ⟨s', hs58, hs'⟩ := season_loop_model sunLon k _ fuel j (by linarith) hl
+          obtain ⟨e', h1, h2, h3⟩ := season_step_exit hs'
+          have hcs := abs_le.mp (season_corr_abs_le k (sunLon s'))
+          rw [Pymeeus.Refine.EpochR.mkEpoch_exact _ (by linarith)] at h1
+          simp only [Except.ok.injEq] at h1
+          subst h1
+          rw [Pymeeus.Refine.EpochR.mkEpoch_exact _ (by linarith)] at h2
+          simp only [Except.ok.injEq] at h2
+          have he : e1 = s' := by rw [← h2]; ring
+          subst he
+          obtain ⟨hc, n, hn⟩ := season_angle_of_corr k (sunLon e1) h3
+          exact ⟨k, rfl, hc, n, le_trans hn season_angle_bound⟩
 
 /-- Non-vacuity of the loop post-condition: with a Sun standing at longitude 0° the spring search of
     year 2000 exits in its first pass (`corr = 0`) and returns the approximate instant itself. -/
@@ -176,6 +199,19 @@ example : get_equinox_solstice (fun x => .ok x) (fun _ => 0) 1 2000 "spring" =
     unfold season_jde0 ofInt; norm_num
   unfold get_equinox_solstice
   simp only [season_index, if_true, hj, loopFuel, season_step, hc, plt, pabs]
+  norm_num
+
+/-- Non-vacuity of `season_post_model`: the same run with the model's own constructor. -/
+example : get_equinox_solstice mkEpoch (fun _ => 0) 1 2000 "spring" = .ok (some 2451623.80984) := by
+  have hc : season_corr 0 0 = 0 := by
+    unfold season_corr season_arg aNeg aSubF aAdd aToPositive plt ofInt psin pradians
+    norm_num [aReduce_zero]
+  have hj : season_jde0 2000 0 = .ok 2451623.80984 := by
+    unfold season_jde0 ofInt; norm_num
+  have m1 : mkEpoch 2451623.80984 = .ok 2451623.80984 :=
+    Pymeeus.Refine.EpochR.mkEpoch_exact _ (by norm_num)
+  unfold get_equinox_solstice
+  simp only [season_index, if_true, hj, m1, loopFuel, season_step, hc, add_zero, sub_zero, plt, pabs]
   norm_num
 
 /-! ## Equation of time -/
@@ -265,85 +301,85 @@ theorem rise_order (ejde : ℝ) (leap : Int) (lat lon alt jt om c : ℝ)
   refine ⟨neg_le_of_abs_le hc1, le_of_abs_le hc1, hom', h0, h180, ?_, ?_, ?_⟩ <;>
     (unfold rise_set_args; simp only; norm_num; try linarith)
 
-/-- The `acos` argument of `rise_set` is in range — no "math domain error" — under the explicit,
-    decidable hypothesis `|φ| + 23.44° + 0.83° + dip ≤ 90°` (dip = 2.076·√height/60 degrees), for every
-    date, longitude and leap-second count.  PARTIAL: the property asks for every latitude inside the
-    polar circles (the code accepts |φ| ≤ 66°33'); for 65.73° < |φ| ≤ 66.55° around the solstices
-    the argument leaves [−1, 1] (`rise_safe_counterexample`) and Python raises ValueError. -/
-theorem rise_safe_partial (ejde : ℝ) (leap : Int) (lat lon alt : ℝ) (halt : 0 ≤ alt)
-    (hlat : |lat| + 23.44 + 0.83 + 2.076 * Real.sqrt alt / 60 ≤ 90) :
-    ∃ r, rise_set_core ejde leap lat lon alt = .ok r := by
+/-- For which (latitude, day) the sunrise equation has no solution — the listed midnight-sun finding,
+    characterised through the model's OWN solar declination `rise_delta` (the sunrise equation's
+    `asin(sin λ · sin 23.44°)` for the day `ejde`, the longitude and the leap-second count): for every
+    accepted latitude (|φ| ≤ 66°33'), every height ≥ 0 with 0.83° + dip ≤ 90°, every date,
+    `rise_set` raises `ValueError` ("math domain error") EXACTLY when
+    `|φ + δ| > 90° − 0.83° − dip` (δ in degrees), and returns its two instants otherwise.
+    (The polar-night side, `acos` argument > 1, cannot occur for an accepted latitude.) -/
+theorem rise_set_no_solution_iff (ejde : ℝ) (leap : Int) (lat lon alt : ℝ) (hlat : |lat| ≤ 66.55)
+    (halt : 0 ≤ alt) (hdip : 0.83 + 2.076 * Real.sqrt alt / 60 ≤ 90) :
+    (rise_set_core ejde leap lat lon alt = .error .valueError ↔
+      90 - 0.83 - 2.076 * Real.sqrt alt / 60 < |lat + rise_delta ejde leap lon * (180 / Real.pi)|) ∧
+    (¬ (90 - 0.83 - 2.076 * Real.sqrt alt / 60 < |lat + rise_delta ejde leap lon * (180 / Real.pi)|) →
+      ∃ r, rise_set_core ejde leap lat lon alt = .ok r) := by
   have hpi := Real.pi_pos
-  have hsq := Real.sqrt_nonneg alt
-  have hl := abs_le.mp (show |lat| ≤ 65.73 by linarith)
-  -- the five tests of the model, in order
+  have hl := abs_le.mp hlat
   have t1 : (plt rise_limit lat || plt lat (aNeg rise_limit)) = false := by
     rw [aNeg_rise_limit, rise_limit_val]; unfold plt
     simp only [Bool.or_eq_false_iff, decide_eq_false_iff_not, not_lt]
     constructor <;> linarith [hl.1, hl.2]
   have t3 : plt alt 0.0 = false := by
     unfold plt; simp only [decide_eq_false_iff_not, not_lt]; norm_num; exact halt
-  unfold rise_set_core
-  simp only [t1, t3, Bool.false_eq_true, if_false]
-  set lr := pradians (pmod (pmod (357.5291 + 0.98560028 * (ejde - 2451545.0 + (10.0 + 32.184 + ofInt leap) / 86400.0 - lon / 360.0)) 360.0 +
-      (1.9148 * psin (pradians (pmod (357.5291 + 0.98560028 * (ejde - 2451545.0 + (10.0 + 32.184 + ofInt leap) / 86400.0 - lon / 360.0)) 360.0)) +
-        0.02 * psin (2.0 * pradians (pmod (357.5291 + 0.98560028 * (ejde - 2451545.0 + (10.0 + 32.184 + ofInt leap) / 86400.0 - lon / 360.0)) 360.0)) +
-        0.0003 * psin (3.0 * pradians (pmod (357.5291 + 0.98560028 * (ejde - 2451545.0 + (10.0 + 32.184 + ofInt leap) / 86400.0 - lon / 360.0)) 360.0))) +
-      180.0 + 102.9372) 360.0) with hlr
-  -- ε = 23.44°, φ, c0 in radians
-  set ε := pradians 23.44 with hε
-  have hε0 : 0 ≤ ε := by rw [hε]; unfold pradians; positivity
-  have hε1 : ε ≤ Real.pi / 2 := by rw [hε]; unfold pradians; nlinarith
-  have hδ := abs_arcsin_mul_le (l := lr) hε0 hε1
-  have hsd : |psin lr * psin ε| ≤ 1 := by
-    unfold psin; rw [abs_mul]
-    calc |Real.sin lr| * |Real.sin ε| ≤ 1 * 1 :=
+  have hε0 : 0 ≤ pradians 23.44 := by unfold pradians; positivity
+  have hε1 : pradians 23.44 ≤ Real.pi / 2 := by unfold pradians; nlinarith
+  have hδabs : |rise_delta ejde leap lon| ≤ 23.44 * (Real.pi / 180) :=
+    abs_arcsin_mul_le (l := rise_lr (rise_m (rise_jstar ejde leap lon))) hε0 hε1
+  have hsd : |rise_sin_delta (rise_m (rise_jstar ejde leap lon))| ≤ 1 := by
+    unfold rise_sin_delta psin; rw [abs_mul]
+    calc |Real.sin _| * |Real.sin _| ≤ 1 * 1 :=
           mul_le_mul (Real.abs_sin_le_one _) (Real.abs_sin_le_one _) (abs_nonneg _) (by norm_num)
       _ = 1 := by norm_num
-  have t2 : plt 1.0 (pabs (psin lr * psin ε)) = false := by
-    unfold plt pabs; simp only [decide_eq_false_iff_not, not_lt]; norm_num; rw [← abs_mul]; exact hsd
-  simp only [t2, Bool.false_eq_true, if_false]
-  set φ := pradians lat with hφ
-  set c0 := pradians (rise_h0 alt) with hc0
-  have hφabs : |φ| = |lat| * (Real.pi / 180) := by
-    rw [hφ]; unfold pradians; rw [abs_mul, abs_of_pos (by positivity : (0:ℝ) < Real.pi / 180)]
-  have hc0v : c0 = (-0.83 - 2.076 * Real.sqrt alt / 60.0) * (Real.pi / 180) := by
-    rw [hc0]; unfold pradians rise_h0 psqrt; rfl
-  have hc0le : c0 ≤ 0 := by
-    rw [hc0v]; apply mul_nonpos_of_nonpos_of_nonneg _ (by positivity)
-    norm_num; linarith [show (0:ℝ) ≤ 2.076 * Real.sqrt alt / 60 by positivity]
-  have habs0 := abs_nonneg lat
-  have hsum : |φ| + |pasin (psin lr * psin ε)| ≤ Real.pi / 2 + c0 := by
-    have : |φ| + ε ≤ Real.pi / 2 + c0 := by
-      rw [hφabs, hε, hc0v]; unfold pradians
-      have : (|lat| + 23.44 + 0.83 + 2.076 * Real.sqrt alt / 60) * (Real.pi / 180) ≤ 90 * (Real.pi / 180) :=
-        mul_le_mul_of_nonneg_right hlat (by positivity)
-      norm_num at this ⊢; linarith
-    unfold pasin psin at *; linarith
-  have hc0ge : -(Real.pi / 2) ≤ c0 := by
-    have := abs_nonneg φ; have := abs_nonneg (pasin (psin lr * psin ε)); linarith
-  have hδlt : |pasin (psin lr * psin ε)| < Real.pi / 2 := by
-    have : ε < Real.pi / 2 := by rw [hε]; unfold pradians; nlinarith
-    unfold pasin psin at *; linarith
-  have hφlt : |φ| < Real.pi / 2 := by
-    rw [hφabs]; nlinarith [hl.1, hl.2, abs_le.mpr ⟨hl.1, hl.2⟩]
-  have hcφ : 0 < Real.cos φ := Real.cos_pos_of_mem_Ioo ⟨by linarith [neg_abs_le φ], by linarith [le_abs_self φ]⟩
-  have hcδ : 0 < Real.cos (pasin (psin lr * psin ε)) :=
-    Real.cos_pos_of_mem_Ioo ⟨by linarith [neg_abs_le (pasin (psin lr * psin ε))], by linarith [le_abs_self (pasin (psin lr * psin ε))]⟩
-  have hcos : 0 < Real.cos φ * Real.cos (pasin (psin lr * psin ε)) := mul_pos hcφ hcδ
-  have t4 : peq (pcos φ * pcos (pasin (psin lr * psin ε))) 0.0 = false := by
-    unfold peq pcos; simp only [decide_eq_false_iff_not]; norm_num
-    exact ⟨hcφ.ne', hcδ.ne'⟩
+  have t2 : plt 1.0 (pabs (rise_sin_delta (rise_m (rise_jstar ejde leap lon)))) = false := by
+    unfold plt pabs; simp only [decide_eq_false_iff_not, not_lt]; norm_num; exact hsd
+  have hs : rise_sin_delta (rise_m (rise_jstar ejde leap lon)) = Real.sin (rise_delta ejde leap lon) := by
+    unfold rise_delta pasin; exact (Real.sin_arcsin (neg_le_of_abs_le hsd) (le_of_abs_le hsd)).symm
+  obtain ⟨hcos, hiff⟩ := rise_region_iff lat alt (rise_delta ejde leap lon) hlat halt hdip hδabs
+  unfold rise_set_core
+  simp only [t1, t2, t3, Bool.false_eq_true, if_false]
+  rw [hs]
+  generalize rise_delta ejde leap lon = δ at hcos hiff ⊢
+  have t4 : peq (pcos (pradians lat) * pcos δ) 0.0 = false := by
+    unfold peq pcos pradians; simp only [decide_eq_false_iff_not]; norm_num
+    exact ⟨left_ne_zero_of_mul hcos.ne', right_ne_zero_of_mul hcos.ne'⟩
   simp only [t4, Bool.false_eq_true, if_false]
-  have hsin_asin : Real.sin (pasin (psin lr * psin ε)) = psin lr * psin ε := by
-    unfold pasin; exact Real.sin_arcsin (neg_le_of_abs_le hsd) (le_of_abs_le hsd)
-  have hmain := cos_om_bounds hc0le hc0ge hsum hcos
-  have t5 : plt 1.0 (pabs (rise_cos_om lat (psin lr * psin ε) (pcos (pasin (psin lr * psin ε))) alt)) = false := by
-    unfold plt pabs rise_cos_om; simp only [decide_eq_false_iff_not, not_lt]
-    rw [hsin_asin] at hmain
-    norm_num; exact hmain
-  simp only [t5, Bool.false_eq_true, if_false]
-  exact ⟨_, rfl⟩
+  by_cases hR : 90 - 0.83 - 2.076 * Real.sqrt alt / 60 < |lat + δ * (180 / Real.pi)|
+  · have t5 : plt 1.0 (pabs (rise_cos_om lat (Real.sin δ) (pcos δ) alt)) = true := by
+      unfold plt pabs pcos; simp only [decide_eq_true_eq]; norm_num; exact hiff.mpr hR
+    simp only [t5, if_true, hR, not_true_eq_false, false_implies, and_true]
+  · have t5 : plt 1.0 (pabs (rise_cos_om lat (Real.sin δ) (pcos δ) alt)) = false := by
+      unfold plt pabs pcos; simp only [decide_eq_false_iff_not]; norm_num
+      exact not_lt.mp (fun h => hR (hiff.mp h))
+    simp only [t5, Bool.false_eq_true, if_false, hR, iff_false, not_false_eq_true, true_implies]
+    exact ⟨by simp, ⟨_, rfl⟩⟩
+
+/-- The `acos` argument of `rise_set` is in range — no "math domain error" — under the explicit,
+    decidable hypothesis `|φ| + 23.44° + 0.83° + dip ≤ 90°` (dip = 2.076·√height/60 degrees), for every
+    date, longitude and leap-second count.  PARTIAL: the property asks for every latitude inside the
+    polar circles (the code accepts |φ| ≤ 66°33'); for 65.73° < |φ| ≤ 66.55° around the solstices
+    the argument leaves [−1, 1] (`rise_safe_counterexample`, exactly as `rise_set_no_solution_iff`
+    says) and Python raises ValueError. -/
+theorem rise_safe_partial (ejde : ℝ) (leap : Int) (lat lon alt : ℝ) (halt : 0 ≤ alt)
+    (hlat : |lat| + 23.44 + 0.83 + 2.076 * Real.sqrt alt / 60 ≤ 90) :
+    ∃ r, rise_set_core ejde leap lat lon alt = .ok r := by
+  have hpi := Real.pi_pos
+  have hsq := Real.sqrt_nonneg alt
+  have h0 := abs_nonneg lat
+  apply (rise_set_no_solution_iff ejde leap lat lon alt (by linarith) halt (by linarith)).2
+  rw [not_lt]
+  -- |δ| ≤ 23.44° in degrees
+  have hε0 : 0 ≤ pradians 23.44 := by unfold pradians; positivity
+  have hε1 : pradians 23.44 ≤ Real.pi / 2 := by unfold pradians; nlinarith
+  have hδ : |rise_delta ejde leap lon| ≤ pradians 23.44 :=
+    abs_arcsin_mul_le (l := rise_lr (rise_m (rise_jstar ejde leap lon))) hε0 hε1
+  have hδdeg : |rise_delta ejde leap lon * (180 / Real.pi)| ≤ 23.44 := by
+    rw [abs_mul, abs_of_pos (by positivity : (0:ℝ) < 180 / Real.pi)]
+    calc |rise_delta ejde leap lon| * (180 / Real.pi) ≤ pradians 23.44 * (180 / Real.pi) :=
+          mul_le_mul_of_nonneg_right hδ (by positivity)
+      _ = 23.44 := by unfold pradians; field_simp
+  have := abs_add_le lat (rise_delta ejde leap lon * (180 / Real.pi))
+  linarith
 
 /-- The clause "for every latitude inside the polar circles" is false of the code: at latitude 66.5°
     (inside the accepted range |φ| ≤ 66°33'), sea level, with the Sun at ecliptic longitude 90°
@@ -534,18 +570,79 @@ theorem rts_interpol_meeus (n y1 y2 y3 : ℝ) (ha : |y2 - y1| < 180) (hb : |y3 -
 theorem rts_transit_step_bound (lon lat a1 d1 a2 d2 a3 d3 h0 dt th0 m0 m1 m2 n0 n1 n2 : ℝ)
     (h : rts_iter lon lat a1 d1 a2 d2 a3 d3 h0 dt th0 (m0, m1, m2) = .ok (n0, n1, n2)) :
     |n0 - m0| ≤ 1 / 2 := by
-  unfold rts_iter at h
-  simp only at h
-  split at h <;> try (simp at h; done)
-  split at h <;> try (simp at h; done)
-  split at h <;> try (simp at h; done)
-  split at h <;> try (simp at h; done)
-  simp only [Except.ok.injEq, Prod.mk.injEq] at h
-  obtain ⟨h0', _, _⟩ := h
-  rw [← h0']
-  obtain ⟨hl, hu, _⟩ := wrap180_range
-    (aSub (aSub (aAdd th0 (360.985647 * m0)) lon) (rts_interpol (m0 + dt / 86400.0) a1 a2 a3))
-  rw [abs_le]
-  constructor <;> norm_num <;> linarith
+  exact rts_iter_transit_bound h
+
+/-- "on the meridian at the returned times", structural part: the returned transit lies within ONE day
+    of the start estimate `m0 ∈ [0, 1]` (two passes of at most half a day each), i.e. between −24 h and
+    +48 h of the day's 0h, for all inputs. -/
+theorem rts_transit_within_one_day (lon lat a1 d1 a2 d2 a3 d3 h0 dt th0 r t s : ℝ)
+    (h : times_rise_transit_set lon lat a1 d1 a2 d2 a3 d3 h0 dt th0 = .ok (some (r, t, s))) :
+    ∃ m0 : ℝ, 0 ≤ m0 ∧ m0 ≤ 1 ∧ |t / 24 - m0| ≤ 1 ∧ -24 ≤ t ∧ t ≤ 48 := by
+  unfold times_rise_transit_set at h
+  cases hc : rts_cosH0 lat d2 h0 with
+  | error e => rw [hc] at h; simp at h
+  | ok c =>
+    rw [hc] at h; simp only at h
+    split_ifs at h
+    · simp at h
+    cases ht : rts_times lon lat a1 d1 a2 d2 a3 d3 h0 dt th0 c with
+    | error e => rw [ht] at h; simp at h
+    | ok v =>
+      rw [ht] at h
+      simp only [Except.ok.injEq, Option.some.injEq] at h
+      subst h
+      obtain ⟨m0, b0, b1, b2, ⟨p0, p1, p2⟩, n0, n1, n2, _, hb0, _, _, hs1, hs2, _, htv, _⟩ := rts_times_ok ht
+      obtain ⟨r0, r1⟩ := rts_check_value_range hb0
+      have e1 := abs_le.mp (rts_iter_transit_bound hs1)
+      have e2 := abs_le.mp (rts_iter_transit_bound hs2)
+      refine ⟨b0, r0, r1, ?_, ?_, ?_⟩
+      · rw [htv, abs_le]; constructor <;> linarith [e1.1, e1.2, e2.1, e2.2]
+      · rw [htv]; linarith [e1.1, e2.1]
+      · rw [htv]; linarith [e1.2, e2.2]
+
+/-- "rise before transit before set" in the model. The three start estimates are `m0` and
+    `m0 ∓ H0/360` with `0° ≤ H0 ≤ 180°` (`H0 = acos(cos H0)`); when they need no day wrap
+    (`0 ≤ m0 − H0/360`, `m0 + H0/360 ≤ 1`: `check_value` leaves them alone) the returned times are
+    `24·(start + Δ)`, with `|Δ0| ≤ 1` for the transit, and rise < transit < set holds as soon as the
+    total corrections of the two passes differ by less than `H0/360` day
+    (`|Δ1 − Δ0| < H0/360`, `|Δ2 − Δ0| < H0/360`) — the honest hypothesis: the corrections `Δ1`, `Δ2`
+    divide by `sin H` and are NOT bounded near a grazing rise, and with a day wrap the docstring's
+    "belongs to the following/previous day" applies instead. -/
+theorem rts_order (lon lat a1 d1 a2 d2 a3 d3 h0 dt th0 c r t s m0 : ℝ)
+    (h : rts_times lon lat a1 d1 a2 d2 a3 d3 h0 dt th0 c = .ok (r, t, s))
+    (hm0 : aDivF (aSub (aAdd a2 lon) th0) 360.0 = .ok m0)
+    (hw1 : 0 ≤ m0 - aToPositive (aOfRadians (pacos c)) / 360)
+    (hw2 : m0 + aToPositive (aOfRadians (pacos c)) / 360 ≤ 1) :
+    0 ≤ aToPositive (aOfRadians (pacos c)) ∧ aToPositive (aOfRadians (pacos c)) ≤ 180 ∧
+    ∃ Δ0 Δ1 Δ2 : ℝ, |Δ0| ≤ 1 ∧ t = 24 * (m0 + Δ0) ∧
+      r = 24 * (m0 - aToPositive (aOfRadians (pacos c)) / 360 + Δ1) ∧
+      s = 24 * (m0 + aToPositive (aOfRadians (pacos c)) / 360 + Δ2) ∧
+      (|Δ1 - Δ0| < aToPositive (aOfRadians (pacos c)) / 360 →
+       |Δ2 - Δ0| < aToPositive (aOfRadians (pacos c)) / 360 → r < t ∧ t < s) := by
+  obtain ⟨H0, H1⟩ := rts_hh0_range c
+  refine ⟨H0, H1, ?_⟩
+  obtain ⟨m0', b0, b1, b2, ⟨p0, p1, p2⟩, n0, n1, n2, hm, hb0, hb1, hb2, hs1, hs2, hrv, htv, hsv⟩ := rts_times_ok h
+  rw [hm0] at hm
+  simp only [Except.ok.injEq] at hm
+  subst hm
+  set H := aToPositive (aOfRadians (pacos c)) with hH
+  have e360 : H / 360.0 = H / 360 := by norm_num
+  rw [e360] at hb1 hb2
+  have hm0a : 0 ≤ m0 := by linarith [div_nonneg H0 (by norm_num : (0:ℝ) ≤ 360)]
+  have hm0b : m0 ≤ 1 := by linarith [div_nonneg H0 (by norm_num : (0:ℝ) ≤ 360)]
+  rw [rts_check_value_mid hm0a hm0b] at hb0
+  rw [rts_check_value_mid hw1 (by linarith [div_nonneg H0 (by norm_num : (0:ℝ) ≤ 360)])] at hb1
+  rw [rts_check_value_mid (by linarith [div_nonneg H0 (by norm_num : (0:ℝ) ≤ 360)]) hw2] at hb2
+  simp only [Option.some.injEq] at hb0 hb1 hb2
+  subst hb0 hb1 hb2
+  have e1 := abs_le.mp (rts_iter_transit_bound hs1)
+  have e2 := abs_le.mp (rts_iter_transit_bound hs2)
+  refine ⟨n0 - m0, n1 - (m0 - H / 360), n2 - (m0 + H / 360), ?_, by rw [htv]; ring, by rw [hrv]; ring,
+    by rw [hsv]; ring, ?_⟩
+  · rw [abs_le]; constructor <;> linarith [e1.1, e1.2, e2.1, e2.2]
+  · intro g1 g2
+    rw [abs_lt] at g1 g2
+    rw [hrv, htv, hsv]
+    constructor <;> linarith [g1.1, g1.2, g2.1, g2.2]
 
 end Pymeeus.C14
